@@ -180,8 +180,9 @@ def check_c05(sc, res, baseline_ok=None):
                 None if c[3] is None else len(c[3]), len(res["resp_payload"]))))
     out += wire_checks(res)
     nfaults = len(sc.get("faults", {}))
-    if baseline_ok and nfaults == 1 and sc.get("mode", "ack") == "ack":
-        if not any(c[1] == "ack" for c in res["conf"]):
+    good = {"ack": "ack", "simple": "simple"}.get(sc.get("mode", "ack"))
+    if baseline_ok and nfaults == 1 and good:
+        if not any(c[1] == good for c in res["conf"]):
             out.append(("single-fault", "one fault %r turned a successful transfer into %r" % (
                 sc["faults"], [(c[1], c[3] if not isinstance(c[3], bytes) else len(c[3])) for c in res["conf"]])))
     return out
